@@ -14,7 +14,7 @@ for d in sorted(glob.glob('/verif/seeded/*/')):
     desc = re.sub(r'\s+', ' ', desc)[:170]
     rows.append((os.path.basename(d.rstrip('/')), desc, m['detected']['summary']))
 def rnd(name):
-    return 9 if '-r9-' in name else 8 if '-r8-' in name else 7 if '-r7-' in name else 6 if '-r6-' in name else 5 if '-r5-' in name else 4 if '-r4-' in name else 3 if '-r3-' in name else 2 if '-r2-' in name else 1
+    return 10 if '-r10-' in name else 9 if '-r9-' in name else 8 if '-r8-' in name else 7 if '-r7-' in name else 6 if '-r6-' in name else 5 if '-r5-' in name else 4 if '-r4-' in name else 3 if '-r3-' in name else 2 if '-r2-' in name else 1
 stats = {}
 for r in rows:
     k = rnd(r[0])
@@ -49,7 +49,8 @@ invariants); round 8 for two more, given the earlier fifteen, starting from the 
 worktree's git log): regressions NEXT TO a repaired defect - the same root cause for another input, a half-revert, a
 later simplification of the repaired code, the same slip in a sister function the fix did not touch - or, where no fix
 touches the property's code, another maintenance commit; round 9 repeated round 8's brief with the seventeen earlier
-changes listed, as a control sample. Each change compiles, passes the repository's own
+changes listed, as a control sample, and so did round 10 with nineteen (three agents delivered only one change or none
+within their budget: 34 changes). Each change compiles, passes the repository's own
 test-suite and comes with a demonstration test that fails with the change and passes without it; all of that was
 re-confirmed with `tools/eval_mut.sh` (C19-r2-2 by hand under `-race`) before the change was kept under
 `seeded/<property>-<k>/`, `seeded/<property>-r<round>-<k>/` (`patch.diff`, `demo_test.go.txt`,
@@ -60,9 +61,12 @@ git -C /repo checkout -- .`.
 |---|---|---|---|---|
 """ + "".join(f"| {k} | {v[0]} | {v[0]-v[1]-v[2]} | {v[1]} | {v[2]} |\n" for k, v in sorted(stats.items())) + """
 (For round 2 the checks had already been extended after reading the authors' notes, so "on arrival" is generous there;
-for rounds 1, 3, 4, 5, 6, 7, 8 and 9 every change was run first.) After the strengthenings every seeded change is reported by the quick
+for rounds 1, 3, 4, 5, 6, 7, 8, 9 and 10 every change was run first.) After the strengthenings every seeded change is reported by the quick
 tier of some check, except C04-r2-3 (quick: about one seed in four; thorough: always), C03-r9-1 and C11-r9-1 (thorough
-tier only) and the two changes to `Load` that lie outside the property as stated (C04-r6-1, C04-r6-2). Changes reported by a different
+tier only) and the two changes to `Load` that lie outside the property as stated (C04-r6-1, C04-r6-2). The trend over
+the rounds (share reported on arrival: 88, 73, 65, 50, 53, 89, 85, 65, 70, 74 percent) shows what this technique can and
+cannot claim: each round of independent changes still found regimes no generator reached, every such regime was then
+added, and nothing here establishes that the next round would find none. Changes reported by a different
 check than the one they were written for: C03-r2-1 (C01/C02), C03-r2-2 (C19), C03-r2-3 (C18), C10-r3-2 (C06),
 C19-r3-1 (C13) - each because the behaviour it breaks is that other property's subject. In round 4 four changes to
 shared helpers were first reported by the helper's own property (C06-r4-1 and C09-r4-1 by C17, C06-r4-2 by C16,
@@ -79,9 +83,12 @@ reported on arrival only half of the time): 34 of 40 were reported on arrival. R
 found gaps again, 14 of 40: degenerate predicates on 0..1 vertices, one save position in twelve thousand, graphs with a
 RemoveVertex-then-AddVertex history, results and input buffers the caller overwrites, overlapping Builders, and two changes
 that make IsPlanar allocate without bound, which first ended as INCONCLUSIVE instead of as a verdict. Round 9 (same brief):
-29 of 40 on arrival; two are reported by the thorough tier only (C03-r9-1 needs a search on 11 vertices, C11-r9-1 about
+28 of 40 on arrival; two are reported by the thorough tier only (C03-r9-1 needs a search on 11 vertices, C11-r9-1 about
 one targeted graph in 200000), two belong to another property's check (C03-r9-2, C13-r9-1), the other seven led to the
-last strengthenings (independent decoded graphs, aliased arguments, writers with WriteString, wide final nodes, ...).
+next strengthenings (independent decoded graphs, aliased arguments, writers with WriteString, wide final nodes, ...).
+Round 10: 25 of 34 on arrival; two belong to another property's check (C09-r10-2 to C06, C19-r10-1 to C13), seven led to
+the last strengthenings (results of encoders and decoders owned by the caller, Roots, near-intervals, a big shared graph
+under the race detector, hundreds of large TSP tables with mixed-width weights, FlowerSnark(1)).
 
 | seeded change | what it does (from the author's note) | result |
 |---|---|---|
